@@ -9,6 +9,15 @@ NOTE_COMMON = ("Trusted: go/ssa lowering (x/tools v0.29.0), the symgo executor's
                "in the evidence file (coverage.bounds / coverage.outside_claim) and DESIGN.md. unknown/timeout/unsupported are reported "
                "as INCONCLUSIVE, never as success or violation. ")
 claimed = {
+ 'C06': dict(cat='model_checking', ref='5/C06',
+   text="The real NEA1/NEA2/NEA3, NASEncrypt, snow3g and zuc code is executed symbolically with key, COUNT, bearer, direction and payload symbolic and proved equal to reference models transliterated from the SNOW 3G / UEA2, ZUC / EEA3 specifications and CTR mode: tables index-wise, leaf functions full width, one clock of each kind from an arbitrary state, initialisation, keystream prefixes, and the modes for every bit length 0..64 (256) / octet length 0..24 (40). Equalities are decided on canonical normal forms of the two symbolic results and by z3 where they differ; a second set of harnesses abstracts keystream words as uninterpreted functions so that mode-level deviations give short counterexamples.",
+   note="AES is an uninterpreted function. Reference tables are golden copies validated natively. On a mutated tree a whole-cipher disequality may be beyond z3 within the timeout (reported INCONCLUSIVE); the one-step lemmas and abstracted harnesses are the ones expected to produce replayable counterexamples."),
+ 'C07': dict(cat='model_checking', ref='5/C07',
+   text="Real NIA1/NIA2/NIA3 and NASMacCalculate executed symbolically (key, COUNT, bearer, direction, message symbolic) and proved equal to UIA2 (f9 with MUL64 proved full width), RFC 4493 CMAC run over the same uninterpreted AES (the real aead/cmac code is executed), and EIA3, for every message length 0..24 (40) octets and every bit length up to 72 (136) through the per-algorithm functions.",
+   note="AES uninterpreted; NIA1 bit lengths assume zero pad bits."),
+ 'C08': dict(cat='model_checking', ref='5/C08',
+   text="Algebraic laws proved by z3 on the real NASEncrypt/NASMacCalculate with keystream generators and AES as uninterpreted functions: length preservation, involution, prefix stability, plaintext-independence of ciphertext xor plaintext, NULL algorithms, rejection of every invalid (algorithm, bearer, direction) triple over all 2^24 combinations with payload untouched, nil payload, MAC always 4 octets, key and message unmodified, and absence of panics for every length including empty.",
+   note="Lengths 0..20 (40)."),
  'C01': dict(cat='model_checking', ref='5/C01',
    text="The real decoders are executed symbolically (a) on every byte string of the stated short lengths per message type with all octets symbolic, through all three entry points, and (b) on an input of symbolic length 0..70000 whose contents are an uninterpreted function of the position, so that every declared IE length and every truncation point is one path; every slice/index/nil/make site is a solver query, progress and an allocation bound (c + 2*len + 64 KiB) are asserted after the mandatory part and two loop iterations. No sampling.",
    note="(b) is cut at the third entry into the optional-element loop; longer inputs rely on the per-iteration facts (DESIGN 5/C01)."),
